@@ -491,7 +491,8 @@ theorem step_failed_cases {p : Params} (F : Facts p) {s : TM} {acc : List Rat} (
      ((stepRun p { tm := s, accepted := acc, status := .running } .failed).status = .running ∧
         (stepRun p { tm := s, accepted := acc, status := .running } .failed).tm.time = s.time ∧
         (stepRun p { tm := s, accepted := acc, status := .running } .failed).tm.recompNum = s.recompNum + 1 ∧
-        Inv p (stepRun p { tm := s, accepted := acc, status := .running } .failed).tm acc)) := by
+        Inv p (stepRun p { tm := s, accepted := acc, status := .running } .failed).tm acc ∧
+        pending s ≤ pending (stepRun p { tm := s, accepted := acc, status := .running } .failed).tm)) := by
   obtain ⟨x, hx, hle, heq⟩ := I.next
   have hs1 : (increaseTimeIndex (increaseTime s)).dt = s.dt := rfl
   have hr1 : (increaseTimeIndex (increaseTime s)).recompNum = s.recompNum := rfl
@@ -526,12 +527,13 @@ theorem step_failed_cases {p : Params} (F : Facts p) {s : TM} {acc : List Rat} (
             exact ⟨y, hy1, _, hmem, hy2⟩
         · rw [hrc]; show ((s.recompNum + 1 : Nat) : Int) ≤ p.recompMax; omega
         · rw [hti]; show s.timeIndex + 1 - 1 + 1 = acc.length; have := I.ti; omega
-      refine ⟨?_, Or.inr (Or.inr ⟨?_, ?_, ?_, ?_⟩)⟩ <;>
+      refine ⟨?_, Or.inr (Or.inr ⟨?_, ?_, ?_, ?_, ?_⟩)⟩ <;>
         simp only [stepRun, F.adaptive, Bool.false_eq_true, if_false, compute_fail F, hs1, hr1, h1, h2, if_true,
           hc, statusOf, hf3]
       · exact ht3
       · exact hrc
       · exact hInv
+      · rw [hRi] at hidx; exact hidx
   · refine ⟨?_, Or.inl ⟨?_, by omega⟩⟩ <;>
       simp only [stepRun, F.adaptive, Bool.false_eq_true, if_false, compute_fail F, hr1, h1]
 
@@ -540,7 +542,7 @@ theorem step_failed {p : Params} (F : Facts p) {s : TM} {acc : List Rat} (hm : a
     Good p (stepRun p { tm := s, accepted := acc, status := .running } .failed) := by
   obtain ⟨hacc, hcase⟩ := step_failed_cases F I
   refine ⟨by rw [hacc]; exact hm, by rw [hacc]; exact hb, ?_⟩
-  rcases hcase with ⟨h, _⟩ | ⟨h, _⟩ | ⟨h, _, _, hI⟩
+  rcases hcase with ⟨h, _⟩ | ⟨h, _⟩ | ⟨h, _, _, hI, _⟩
   · rw [h]; exact Or.inr rfl
   · rw [h]; exact Or.inl rfl
   · rw [h, hacc]; exact hI
@@ -647,7 +649,7 @@ theorem failures_exhaust {p : Params} (F : Facts p) : ∀ (k : Nat) (r : Run), G
     show (runFrom p (stepRun p _ .failed) (List.replicate k .failed)).status ≠ .running
     have hg' := good_step F _ .failed hg
     obtain ⟨_, hcase⟩ := step_failed_cases F hg.2.2
-    rcases hcase with ⟨h, _⟩ | ⟨h, _⟩ | ⟨h, _, hrc, _⟩
+    rcases hcase with ⟨h, _⟩ | ⟨h, _⟩ | ⟨h, _, hrc, _, _⟩
     · rw [runFrom_not_running p _ _ (by rw [h]; simp)]; rw [h]; simp
     · rw [runFrom_not_running p _ _ (by rw [h]; simp)]; rw [h]; simp
     · exact ih _ hg' h (by rw [hrc]; push_cast at hk ⊢; omega)
@@ -754,6 +756,146 @@ theorem converged_run_budget {p : Params} (F : Facts p) (hmin : 0 < p.dtMin) :
         show budget p (runFrom p (stepRun p _ (.converged it)) os).tm + p.dtMin * ((os.length + 1 : Nat) : Rat) ≤ budget p tm
         push_cast
         grind
+
+/-! ### termination of arbitrary tapes (failures included) -/
+
+theorem budget_mono {p : Params} (hmin : 0 < p.dtMin) {s s' : TM} (ht : s'.time = s.time)
+    (hp : pending s ≤ pending s') : budget p s' ≤ budget p s := by
+  unfold budget
+  have h3 : ((p.schedule.length - pending s' : Nat) : Rat) ≤ ((p.schedule.length - pending s : Nat) : Rat) := by
+    have : p.schedule.length - pending s' ≤ p.schedule.length - pending s := by omega
+    exact_mod_cast this
+  have := Rat.mul_le_mul_of_nonneg_left h3 (Rat.le_of_lt hmin)
+  rw [ht]; grind
+
+/-- a failed step that is recomputed does not increase the budget -/
+theorem failed_costs {p : Params} (F : Facts p) (hmin : 0 < p.dtMin) {s : TM} {acc : List Rat} (I : Inv p s acc)
+    (h : (stepRun p { tm := s, accepted := acc, status := .running } .failed).status = .running) :
+    budget p (stepRun p { tm := s, accepted := acc, status := .running } .failed).tm ≤ budget p s ∧
+    (stepRun p { tm := s, accepted := acc, status := .running } .failed).tm.recompNum = s.recompNum + 1 := by
+  obtain ⟨_, hcase⟩ := step_failed_cases F I
+  rcases hcase with ⟨h', _⟩ | ⟨h', _⟩ | ⟨_, ht, hrc, _, hp⟩
+  · rw [h'] at h; cases h
+  · rw [h'] at h; cases h
+  · exact ⟨budget_mono hmin ht hp, hrc⟩
+
+/-- accepted steps so far, weighted with `dt_min`, plus the remaining budget while the loop runs -/
+def pot (p : Params) (r : Run) : Rat :=
+  p.dtMin * (r.accepted.length : Rat) + (match r.status with | .running => budget p r.tm | _ => 0)
+
+theorem pot_step {p : Params} (F : Facts p) (hmin : 0 < p.dtMin) (r : Run) (o : Outcome) (hg : Good p r) :
+    pot p (stepRun p r o) ≤ pot p r := by
+  obtain ⟨tm, acc, st⟩ := r
+  cases st with
+  | running =>
+    obtain ⟨hm, hb, hI⟩ := hg
+    have hI : Inv p tm acc := hI
+    have hge := budget_ge F hmin hI
+    cases o with
+    | converged it =>
+      obtain ⟨hacc, _, _, hcase⟩ := step_converged_cases F hm hb hI it
+      rcases hcase with ⟨h', _⟩ | ⟨h', _, _, _⟩
+      · unfold pot; rw [h', hacc]
+        simp only [List.length_cons]
+        push_cast; grind
+      · have hc := converged_costs F hmin hm hb hI it h'
+        unfold pot; rw [h', hacc]
+        simp only [List.length_cons]
+        push_cast; grind
+    | failed =>
+      obtain ⟨hacc, hcase⟩ := step_failed_cases F hI
+      rcases hcase with ⟨h', _⟩ | ⟨h', _⟩ | ⟨h', ht, _, _, hp⟩
+      · unfold pot; rw [h', hacc]; grind
+      · unfold pot; rw [h', hacc]; grind
+      · have := budget_mono hmin ht hp
+        unfold pot; rw [h', hacc]; grind
+  | finished => simp [stepRun]
+  | raised e => simp [stepRun]
+  | crashed e => simp [stepRun]
+
+theorem pot_runFrom {p : Params} (F : Facts p) (hmin : 0 < p.dtMin) (os : List Outcome) :
+    ∀ r, Good p r → pot p (runFrom p r os) ≤ pot p r := by
+  induction os with
+  | nil => intro r _; exact Rat.le_refl
+  | cons o os ih =>
+    intro r hg
+    exact Rat.le_trans (ih _ (good_step F r o hg)) (pot_step F hmin r o hg)
+
+/-- work still to do: every accepted step may be preceded by up to `recomp_max` recomputations -/
+def work (p : Params) (s : TM) : Rat :=
+  ((p.recompMax : Rat) + 1) * budget p s + p.dtMin * ((p.recompMax : Rat) - (s.recompNum : Rat))
+
+theorem work_ge {p : Params} (F : Facts p) (hmin : 0 < p.dtMin) {s : TM} {acc : List Rat} (I : Inv p s acc) :
+    ((p.recompMax : Rat) + 1) * p.dtMin ≤ work p s := by
+  have hb := budget_ge F hmin I
+  have hR : (0 : Rat) ≤ (p.recompMax : Rat) + 1 := by
+    have := F.rmax
+    have : (0 : Rat) ≤ (p.recompMax : Rat) := by exact_mod_cast (by omega : (0 : Int) ≤ p.recompMax)
+    grind
+  have hn : (0 : Rat) ≤ (p.recompMax : Rat) - (s.recompNum : Rat) := by
+    have := I.recomp
+    have : ((s.recompNum : Int) : Rat) ≤ (p.recompMax : Rat) := by exact_mod_cast this
+    have e : ((s.recompNum : Int) : Rat) = (s.recompNum : Rat) := by norm_cast
+    grind
+  have h1 := Rat.mul_le_mul_of_nonneg_left hb hR
+  have h2 := Rat.mul_nonneg (Rat.le_of_lt hmin) hn
+  unfold work; grind
+
+theorem work_step {p : Params} (F : Facts p) (hmin : 0 < p.dtMin) {tm : TM} {acc : List Rat}
+    (hg : Good p { tm := tm, accepted := acc, status := .running }) (o : Outcome)
+    (h : (stepRun p { tm := tm, accepted := acc, status := .running } o).status = .running) :
+    work p (stepRun p { tm := tm, accepted := acc, status := .running } o).tm + p.dtMin ≤ work p tm := by
+  obtain ⟨hm, hb, hI⟩ := hg
+  have hI : Inv p tm acc := hI
+  have hR : (0 : Rat) ≤ (p.recompMax : Rat) := by
+    have := F.rmax
+    exact_mod_cast (by omega : (0 : Int) ≤ p.recompMax)
+  have hn : (s : TM) → (0 : Rat) ≤ (s.recompNum : Rat) := fun s => by exact_mod_cast Nat.zero_le _
+  have hle : (tm.recompNum : Rat) ≤ (p.recompMax : Rat) := by
+    have := hI.recomp
+    have h' : ((tm.recompNum : Int) : Rat) ≤ (p.recompMax : Rat) := by exact_mod_cast this
+    have e : ((tm.recompNum : Int) : Rat) = (tm.recompNum : Rat) := by norm_cast
+    grind
+  cases o with
+  | converged it =>
+    have hc := converged_costs F hmin hm hb hI it h
+    have h1 := Rat.mul_le_mul_of_nonneg_left hc (by grind : (0 : Rat) ≤ (p.recompMax : Rat) + 1)
+    have h2 := hn (stepRun p { tm := tm, accepted := acc, status := .running } (.converged it)).tm
+    have h3 := Rat.mul_nonneg (Rat.le_of_lt hmin) h2
+    have h4 := Rat.mul_nonneg (Rat.le_of_lt hmin) (by grind : (0 : Rat) ≤ (p.recompMax : Rat) - (tm.recompNum : Rat))
+    unfold work; grind
+  | failed =>
+    obtain ⟨hc, hrc⟩ := failed_costs F hmin hI h
+    have h1 := Rat.mul_le_mul_of_nonneg_left hc (by grind : (0 : Rat) ≤ (p.recompMax : Rat) + 1)
+    unfold work
+    rw [hrc]
+    push_cast
+    grind
+
+theorem work_runFrom {p : Params} (F : Facts p) (hmin : 0 < p.dtMin) (os : List Outcome) :
+    ∀ r, Good p r → r.status = .running → (runFrom p r os).status = .running →
+      work p (runFrom p r os).tm + p.dtMin * (os.length : Rat) ≤ work p r.tm := by
+  induction os with
+  | nil =>
+    intro r _ _ _
+    show work p r.tm + p.dtMin * ((0 : Nat) : Rat) ≤ work p r.tm
+    have : ((0 : Nat) : Rat) = 0 := rfl
+    rw [this]; grind
+  | cons o os ih =>
+    intro r hg hr hfin
+    obtain ⟨tm, acc, st⟩ := r
+    cases hr
+    have hfin' : (runFrom p (stepRun p { tm := tm, accepted := acc, status := .running } o) os).status = .running := hfin
+    have hs : (stepRun p { tm := tm, accepted := acc, status := .running } o).status = .running := by
+      by_cases h : (stepRun p { tm := tm, accepted := acc, status := .running } o).status = .running
+      · exact h
+      · rw [runFrom_not_running p _ _ h] at hfin'; exact absurd hfin' h
+    have h1 := work_step F hmin hg o hs
+    have h2 := ih _ (good_step F _ o hg) hs hfin'
+    show work p (runFrom p (stepRun p _ o) os).tm + p.dtMin * ((os.length + 1 : Nat) : Rat) ≤ work p tm
+    push_cast
+    grind
+
 
 /-! ### constant time step -/
 
@@ -912,6 +1054,232 @@ theorem constant_hits {p : Params} (hv : Valid p) (hc : p.constantDt = true)
       · grind
       · exact isclose_mono htol hn0 (by grind) hyf h
   · exact ⟨_, mem_arith _ _ n k hge, hk⟩
+
+
+
+/-! ### constant time step: the constructor's match count -/
+
+/-- pigeonhole on lists: an "injective" relation from a duplicate-free list into a list of the same
+    length reaches every element -/
+theorem pigeonhole {α β : Type} [DecidableEq β] (R : α → β → Prop) :
+    ∀ (C : List α) (S : List β), C.Nodup → C.length = S.length →
+      (∀ c ∈ C, ∃ y ∈ S, R c y) → (∀ c ∈ C, ∀ c' ∈ C, ∀ y, R c y → R c' y → c = c') →
+      ∀ y ∈ S, ∃ c ∈ C, R c y
+  | [], S, _, hlen, _, _ => by
+    intro y hy
+    have : S = [] := List.eq_nil_of_length_eq_zero hlen.symm
+    rw [this] at hy; cases hy
+  | c :: C, S, hnd, hlen, hex, hinj => by
+    obtain ⟨y0, hy0, hR0⟩ := hex c List.mem_cons_self
+    have hnd' := (List.nodup_cons.mp hnd)
+    have ih := pigeonhole R C (S.erase y0) hnd'.2
+      (by rw [List.length_erase_of_mem hy0]; simp at hlen; omega)
+      (by
+        intro c' hc'
+        obtain ⟨y1, hy1, hR1⟩ := hex c' (List.mem_cons_of_mem _ hc')
+        have hne : y1 ≠ y0 := by
+          intro e; subst e
+          have := hinj c' (List.mem_cons_of_mem _ hc') c List.mem_cons_self _ hR1 hR0
+          subst this; exact hnd'.1 hc'
+        exact ⟨y1, (List.mem_erase_of_ne hne).mpr hy1, hR1⟩)
+      (fun a ha b hb y h1 h2 => hinj a (List.mem_cons_of_mem _ ha) b (List.mem_cons_of_mem _ hb) y h1 h2)
+    intro y hy
+    by_cases e : y = y0
+    · subst e; exact ⟨c, List.mem_cons_self, hR0⟩
+    · obtain ⟨c', hc', hR'⟩ := ih y ((List.mem_erase_of_ne e).mpr hy)
+      exact ⟨c', List.mem_cons_of_mem _ hc', hR'⟩
+
+theorem close_lt_half {r a x y d : Rat} (h : isclose r a x y = true) (hs : 2 * (a + r * absR y) < d)
+    (hd : 0 < d) : absR (x - y) < d / 2 := by
+  rw [isclose_iff] at h
+  rcases h with h | h
+  · grind
+  · subst h
+    have : absR (x - x) = 0 := by rw [show x - x = 0 by grind]; rfl
+    grind
+
+/-- the predicate counted by `is_schedule_in_simulated_times` -/
+def closeTo (rtol atol : Rat) (schedule : List Rat) (v : Rat) : Bool :=
+  let ss := (((schedule.drop 1).dropLast).filter (fun x => decide (x < v))).length
+  isclose rtol atol (schedule.getD ss 0) v || isclose rtol atol (schedule.getD (ss + 1) 0) v
+
+theorem scheduleInSimTimes_eq (r a : Rat) (S V : List Rat) :
+    scheduleInSimTimes r a S V = (S.length == (V.filter (closeTo r a S)).length) := rfl
+
+theorem getD_of_lt {l : List Rat} {i : Nat} (h : i < l.length) : l.getD i 0 = l[i] := by
+  simp [List.getD_eq_getElem?_getD, h]
+
+theorem closeTo_spec {r a : Rat} {S : List Rat} (hlen : 2 ≤ S.length) {v : Rat} (h : closeTo r a S v = true) :
+    ∃ y ∈ S, isclose r a y v = true := by
+  unfold closeTo at h
+  simp only [Bool.or_eq_true] at h
+  have hss : (((S.drop 1).dropLast).filter (fun x => decide (x < v))).length + 1 < S.length := by
+    have h1 := List.length_filter_le (fun x => decide (x < v)) ((S.drop 1).dropLast)
+    have h2 : ((S.drop 1).dropLast).length = S.length - 1 - 1 := by simp
+    omega
+  rcases h with h | h
+  · rw [getD_of_lt (by omega)] at h
+    exact ⟨_, List.getElem_mem _, h⟩
+  · rw [getD_of_lt hss] at h
+    exact ⟨_, List.getElem_mem _, h⟩
+
+theorem natCast_sub_ge_one {i j : Nat} (h : i < j) : (1 : Rat) ≤ (j : Rat) - (i : Rat) := by
+  have h1 : ((i + 1 : Nat) : Rat) ≤ (j : Rat) := by exact_mod_cast h
+  push_cast at h1; grind
+
+/-- two simulated times closer than a step are the same -/
+theorem sim_index_eq {s0 d : Rat} (hd : 0 < d) {i j : Nat}
+    (h : absR ((s0 + (i : Rat) * d) - (s0 + (j : Rat) * d)) < d) : i = j := by
+  rcases Nat.lt_trichotomy i j with hlt | heq | hgt
+  · exfalso
+    have h1 := natCast_sub_ge_one hlt
+    have h2 := Rat.mul_le_mul_of_nonneg_right h1 (Rat.le_of_lt hd)
+    rw [absR_of_nonpos (by grind)] at h
+    grind
+  · exact heq
+  · exfalso
+    have h1 := natCast_sub_ge_one hgt
+    have h2 := Rat.mul_le_mul_of_nonneg_right h1 (Rat.le_of_lt hd)
+    rw [absR_of_nonneg (by grind)] at h
+    grind
+
+theorem absR_sub_lt {x y z d : Rat} (h1 : absR (x - y) < d / 2) (h2 : absR (x - z) < d / 2) :
+    absR (y - z) < d := by
+  unfold absR at *
+  split at h1 <;> split at h2 <;> split <;> grind
+
+/-- Under `SmallTol`, the constructor's count test implies that every scheduled time is close to one of
+    the simulated times `t₀ + i·dt`, `i < ⌈(final + dt − t₀)/dt⌉`. -/
+theorem valid_constant_matches {p : Params} (hv : Valid p) (hc : p.constantDt = true) (hs : SmallTol p) :
+    ∀ y ∈ p.schedule, ∃ i : Nat, (p.timeInit + (i : Rat) * p.dtInit) ∈ arange p.timeInit (p.timeFinal + p.dtInit) p.dtInit ∧
+      isclose p.rtol p.atol y (p.timeInit + (i : Rat) * p.dtInit) = true := by
+  obtain ⟨hlen, _, _, hdt⟩ := valid_common hv
+  have hcount : scheduleInSimTimes p.rtol p.atol p.schedule (arange p.timeInit (p.timeFinal + p.dtInit) p.dtInit) = true := by
+    simp only [Valid, validate, hc, if_true, Bool.and_eq_true] at hv
+    exact hv.2
+  rw [scheduleInSimTimes_eq] at hcount
+  have hcount : p.schedule.length =
+      ((arange p.timeInit (p.timeFinal + p.dtInit) p.dtInit).filter (closeTo p.rtol p.atol p.schedule)).length := by
+    simpa using hcount
+  -- work with the indices of the simulated times
+  generalize hn : ((p.timeFinal + p.dtInit - p.timeInit) / p.dtInit).ceil.toNat = n at *
+  have hV : arange p.timeInit (p.timeFinal + p.dtInit) p.dtInit
+      = (List.range n).map (fun (i : Nat) => p.timeInit + (i : Rat) * p.dtInit) := by
+    unfold arange; rw [hn]
+  let g := fun (i : Nat) => p.timeInit + (i : Rat) * p.dtInit
+  let C := (List.range n).filter (fun i => closeTo p.rtol p.atol p.schedule (g i))
+  have hClen : C.length = p.schedule.length := by
+    rw [hcount, hV, List.filter_map, List.length_map]; rfl
+  have hmemV : ∀ i ∈ C, g i ∈ arange p.timeInit (p.timeFinal + p.dtInit) p.dtInit := by
+    intro i hi
+    rw [hV]
+    exact List.mem_map.mpr ⟨i, (List.mem_filter.mp hi).1, rfl⟩
+  have hres := pigeonhole (fun (i : Nat) (y : Rat) => isclose p.rtol p.atol y (g i) = true) C p.schedule
+    (List.Nodup.sublist List.filter_sublist List.nodup_range) hClen
+    (by
+      intro i hi
+      exact closeTo_spec hlen (List.mem_filter.mp hi).2)
+    (by
+      intro i hi j hj y h1 h2
+      have hi' := close_lt_half h1 (hs.1 _ (hmemV i hi)) hdt
+      have hj' := close_lt_half h2 (hs.1 _ (hmemV j hj)) hdt
+      exact sim_index_eq hdt (absR_sub_lt hi' hj'))
+  intro y hy
+  obtain ⟨i, hi, hR⟩ := hres y hy
+  exact ⟨i, hmemV i hi, hR⟩
+
+/-- Constant-dt mode, full statement: parameters the constructor accepts with a tolerance that is small
+    against the step; when the loop has ended every scheduled time is matched by an accepted time. -/
+theorem constant_hits_full {p : Params} (hv : Valid p) (hc : p.constantDt = true) (hs : SmallTol p)
+    (os : List Outcome) (hall : AllConverged os) (hfin : (run p os).status = .finished) :
+    ∀ y ∈ p.schedule, HitByC p (run p os).accepted y := by
+  obtain ⟨hlen, hnn, hsorted, hdt⟩ := valid_common hv
+  obtain ⟨⟨n, hacc, ht⟩, _, hst⟩ := cinv_run hc os hall _ (cinv_start p)
+  have hacc' : (run p os).accepted = arith p.timeInit p.dtInit n := hacc
+  have ht' : (run p os).tm.time = p.timeInit + (n : Rat) * p.dtInit := ht
+  have hf : finalTimeReached p (run p os).tm = true := by
+    rcases hst with ⟨h, _⟩ | ⟨_, h⟩
+    · have : (run p os).status = .running := h
+      rw [hfin] at this; cases this
+    · exact h
+  intro y hy
+  obtain ⟨i, hiV, hR⟩ := valid_constant_matches hv hc hs y hy
+  have hyf : y ≤ p.timeFinal := sorted_le_getLast _ hsorted _ (final_mem_of_len hlen) y hy
+  have hhalf := close_lt_half hR (hs.1 _ hiV) hdt
+  rcases Nat.lt_or_ge n i with hlt | hge
+  · -- impossible: the loop cannot stop a whole step before a matched simulated time
+    exfalso
+    have h1 := natCast_sub_ge_one hlt
+    have h2 := Rat.mul_le_mul_of_nonneg_right h1 (Rat.le_of_lt hdt)
+    simp only [finalTimeReached, Bool.or_eq_true, decide_eq_true_eq] at hf
+    rw [ht'] at hf
+    unfold absR at hhalf
+    rcases hf with h | h
+    · split at hhalf <;> grind
+    · have h3 := close_lt_half h hs.2 hdt
+      unfold absR at h3
+      split at hhalf <;> split at h3 <;> grind
+  · rw [hacc']
+    exact ⟨_, mem_arith _ _ n i hge, hR⟩
+
+/-- in constant-dt mode, while the loop runs on converged steps, the clock is `t + k·dt` after `k` steps -/
+theorem constant_time_after {p : Params} (hc : p.constantDt = true) : ∀ (os : List Outcome), AllConverged os →
+    ∀ r : Run, r.status = .running → (runFrom p r os).status = .running →
+      (runFrom p r os).tm.time = r.tm.time + (os.length : Rat) * r.tm.dt ∧ (runFrom p r os).tm.dt = r.tm.dt := by
+  intro os
+  induction os with
+  | nil =>
+    intro _ r _ _
+    have : ((0 : Nat) : Rat) = 0 := rfl
+    refine ⟨?_, rfl⟩
+    show r.tm.time = r.tm.time + ((0 : Nat) : Rat) * r.tm.dt
+    rw [this]; grind
+  | cons o os ih =>
+    intro hall r hr hfin
+    obtain ⟨it, rfl⟩ := hall o List.mem_cons_self
+    obtain ⟨tm, acc, st⟩ := r
+    cases hr
+    have hfin' : (runFrom p (stepRun p { tm := tm, accepted := acc, status := .running } (.converged it)) os).status = .running := hfin
+    have hstep : stepRun p { tm := tm, accepted := acc, status := .running } (.converged it)
+        = { tm := increaseTimeIndex (increaseTime tm), accepted := (increaseTimeIndex (increaseTime tm)).time :: acc,
+            status := statusOf p (increaseTimeIndex (increaseTime tm)) } := by
+      simp [stepRun, hc]
+    have hs : (stepRun p { tm := tm, accepted := acc, status := .running } (.converged it)).status = .running := by
+      by_cases h : (stepRun p { tm := tm, accepted := acc, status := .running } (.converged it)).status = .running
+      · exact h
+      · rw [runFrom_not_running p _ _ h] at hfin'; exact absurd hfin' h
+    obtain ⟨h1, h2⟩ := ih (fun o ho => hall o (List.mem_cons_of_mem _ ho)) _ hs hfin'
+    rw [hstep] at h1 h2
+    constructor
+    · show (runFrom p (stepRun p _ (.converged it)) os).tm.time = tm.time + ((os.length + 1 : Nat) : Rat) * tm.dt
+      rw [hstep, h1]
+      show tm.time + tm.dt + (os.length : Rat) * tm.dt = _
+      push_cast; grind
+    · show (runFrom p (stepRun p _ (.converged it)) os).tm.dt = tm.dt
+      rw [hstep, h2]; rfl
+
+/-- a tape of converged steps that is long enough to pass the final time ends the constant-dt loop -/
+theorem constant_finishes {p : Params} (hc : p.constantDt = true) (os : List Outcome)
+    (hall : AllConverged os) (hlen : p.timeFinal ≤ p.timeInit + (os.length : Rat) * p.dtInit) :
+    (run p os).status = .finished := by
+  obtain ⟨⟨n, _, _⟩, _, hst⟩ := cinv_run hc os hall _ (cinv_start p)
+  rcases hst with ⟨hr, hnf⟩ | ⟨hf, _⟩
+  · exfalso
+    have hr' : (run p os).status = .running := hr
+    have h0 : (startRun p).status = .running := by
+      by_cases h0 : (startRun p).status = .running
+      · exact h0
+      · have : run p os = startRun p := runFrom_not_running p os _ h0
+        rw [this] at hr'; exact absurd hr' h0
+    obtain ⟨ht, _⟩ := constant_time_after hc os hall _ h0 hr'
+    have ht' : (run p os).tm.time = p.timeInit + (os.length : Rat) * p.dtInit := ht
+    have hnf' : finalTimeReached p (run p os).tm = false := hnf
+    obtain ⟨h1, h2⟩ := not_final_iff.mp hnf'
+    rw [ht'] at h1 h2
+    have : p.timeInit + (os.length : Rat) * p.dtInit = p.timeFinal := by grind
+    rw [this, isclose_self] at h2
+    cases h2
+  · exact hf
 
 
 end PorepyVerif.C09
